@@ -532,10 +532,9 @@ pub fn judge(p: &Program) -> Result<String, String> {
                 return Err(format!("forbidden program {} ({}) was ACCEPTED by the compiler:\n{}", p.name, p.cell, p.source));
             }
             if v.error_line != Some(p.mark_line) {
-                return Err(format!(
-                    "harness: program {} ({}) fails to compile, but at line {:?} instead of the marked line {} ({}): cannot attribute the rejection to the forbidden request",
-                    p.name, p.cell, v.error_line, p.mark_line, v.error_message
-                ));
+                // rejected, but on one of the PERMITTED lines that lead to the marked one: that line is judged by its own
+                // permitted cell (which reports the violation); this program cannot attribute anything
+                return Ok(format!("unattributed:line{:?}:{}", v.error_line, v.error_code.clone().unwrap_or_default()));
             }
             let code = v.error_code.clone().unwrap_or_default();
             if !ACCEPTED_CODES.contains(&code.as_str()) {
@@ -586,6 +585,13 @@ pub fn run(ctx: &mut Ctx) -> Result<(), Violation> {
         Ok(())
     });
     r?;
+    // nothing was reported although some forbidden programs were rejected on a line other than the marked one: the
+    // harness cannot attribute those rejections - inconclusive, never a pass
+    let unattributed: u64 = ctx.ev.classes.iter().filter(|(k, _)| k.contains(":unattributed:")).map(|(_, v)| *v).sum();
+    if unattributed > 0 {
+        eprintln!("HARNESS ERROR: {unattributed} forbidden program(s) were rejected on a line other than the marked one and no permitted cell failed");
+        std::process::exit(2);
+    }
     let done = results.lock().unwrap();
     for p in &progs {
         if p.expect == Expect::Forbidden {
